@@ -11,6 +11,7 @@ import random
 import tempfile
 
 from .. import common
+from .. import shellbuild
 from .. import model as M
 from ..modelgen import GenOpts, ModelGen
 
@@ -38,13 +39,16 @@ def build_case(seed: int, stream: int) -> dict:
         gen.model.comment = rng.choice(['// c', '', 'multi\nline'])
     doc = M.to_json(gen.model, decorate=rng.random() < 0.5, rng=rng)
     return {'doc': doc, 'expect': M.expectations(gen.model),
-            'route': rng.choice(['str', 'bytes', 'file']), 'stream': stream}
+            'route': rng.choice(['str', 'bytes', 'file', 'reused-after-refusal']),
+            'stream': stream}
 
 
 def parse(text: str, route):
     """Parse through one of the three entry routes of DznJsonAst."""
     from dznpy.json_ast import DznJsonAst  # pylint: disable=import-outside-toplevel
     verbose = common.verbose_for(text)
+    if route == 'reused-after-refusal':
+        return shellbuild.parse_after_refusal(text, verbose)
     if route == 'bytes':
         return DznJsonAst(text.encode('utf-8'), verbose).process()
     if route == 'file':
